@@ -254,15 +254,26 @@ def key_dispatch(ctx, rep, rule):
         if body is None:
             continue
         prov = flow.Prov(body)
-        for code in range(0, 64):
-            def ev(t, code=code):
-                if t[0] == "bin" and t[1] == "BitAnd" and t[2] == ("arg", 1) and t[3][0] == "const" and t[3][1] == 0x3F:
-                    return code
+        for raw in range(0, 256):
+            code = raw & 0x3F
+
+            def ev(t, raw=raw):
+                # the cell fixes the whole code octet: the algorithm is its low six bits whatever the key-type bits say
+                if t == ("arg", 1):
+                    return raw
                 return None
             blocks, _ = cells.feasible(body, prov, ev)
             tg = cells.tags(body, blocks)
             vs = sorted({x[2] for x in tg if x[0] == "agg" and x[1] == adt})
-            key = "%s|code %d" % (fn, code)
+            key = "%s|code %d" % (fn, code) if raw < 64 else "%s|code 0x%02x" % (fn, raw)
+            if raw >= 64:
+                # key-type bits set: same algorithm as the low bits select
+                if code in table and vs != [table[code]]:
+                    rep.violation(rule, key, "algorithm code 0x%02x (algorithm %d with key-type bits 0x%02x) builds %s, expected %s: the key-type "
+                                  "bits change the algorithm" % (raw, code, raw & 0xC0, vs, table[code]), body.loc(), obligation=True)
+                elif code not in table and vs:
+                    rep.violation(rule, key, "unknown algorithm code 0x%02x is accepted as %s" % (raw, vs), body.loc(), obligation=True)
+                continue
             if code in table:
                 rep.check(rule, key, vs == [table[code]], "-> " + table[code], "algorithm code %d builds %s, expected %s" % (code, vs, table[code]), body.loc(),
                           obligation=True)
@@ -289,6 +300,14 @@ def key_dispatch(ctx, rep, rule):
             key = "AuthKey::as_key_type|type bits 0x%02x" % kt
             if meth:
                 rep.check(rule, key, called == [meth], "-> " + meth, "key type 0x%02x is installed with %s, expected %s" % (kt, called, meth), body.loc(), obligation=True)
+                # ... on every successful path: nothing (an empty key, a flag) lets as_key_type return Ok with the old key in place
+                inst = [b for b in body.calls() if b.idx in blocks and (callee_path(b.term) or "").endswith("::" + meth)]
+                oks_ = [b_ for b_ in flow.blocks_assigning_return(body, lambda rv: rv["k"] == "agg" and rv.get("vname") == "Ok") if b_ in blocks]
+                cut_ = {(b.idx, s_) for b in inst for s_ in b.succs()}
+                pth = cells.path_within(body, blocks, oks_, cut_) if oks_ else None
+                rep.check(rule, key + "|always installs", pth is None, "every Ok return follows " + meth,
+                          "with an authentication algorithm configured as_key_type can return Ok without installing the key (blocks %s): the "
+                          "all-zero default key stays in use" % pth, body.loc(), obligation=True)
             else:
                 rep.check(rule, key, not called and cells.has_agg(tg, "error::SnmpError", "InvalidKey"), "refused with InvalidKey",
                           "key type 0xc0 is installed with %s" % called, body.loc(), obligation=True)
@@ -1379,3 +1398,64 @@ def hand_lengths(ctx, rep, rule):
                           "a length octet is written by hand (push_u8 of %s): only the short form is produced, lengths of 128 and more are mis-encoded; "
                           "use push_tag_len" % flow.fmt(t)[:80], body.loc(b.term["line"]), obligation=True)
     rep.info(rule, "push_u8 call sites outside Buffer", str(n))
+
+
+def key_size_guards(ctx, rep, rule):
+    """get_localized_key refuses every master key whose length is not the digest size (an equality test, not an ordering) and
+    get_master_key refuses the empty password; ScopedPdu::try_from adds no refusal of its own (padding after the scoped PDU
+    of a decrypted message is legal, whatever its octets)."""
+    facts = ctx.facts
+    body = facts.body("util::get_localized_key")
+    if body is None:
+        rep.missing(rule, "util::get_localized_key")
+    else:
+        prov = flow.Prov(body)
+        verr = [b.idx for b in body.calls() if (callee_path(b.term) or "").endswith("PyValueError::new_err") or "PyValueError" in (callee_path(b.term) or "")]
+        gs = flow.deciding_guards(body, prov, verr)
+        sized = [(g, pol) for g, pol, tgt in gs if flow.mentions(g.term, lambda s_: s_[0] == "call" and (s_[1] or "").split("::")[-1] == "len" and s_[2] and s_[2][0] == ("arg", 3))]
+        if not sized:
+            rep.violation(rule, "util::get_localized_key|key-size", "no test of master_key.len() leads to the ValueError exit: keys of any length are hashed", body.loc(),
+                          obligation=True)
+        for g, pol in sized:
+            ea = flow.eq_atom(g)
+            rep.check(rule, "util::get_localized_key|key-size", ea is not None and flow.mentions(g.term, lambda s_: s_[0] == "call" and (s_[1] or "").endswith("get_key_size")),
+                      "master_key.len() != key size is refused", "the size test is %s: keys longer (or shorter) than the digest size are accepted and hashed" % flow.fmt(g.term)[:100],
+                      body.loc(g.line), obligation=True)
+    sb = facts.body("<snmp::msg::v3::scoped::ScopedPdu<'a> as std::convert::TryFrom<&'a [u8]>>::try_from")
+    if sb is None:
+        rep.missing(rule, "ScopedPdu::try_from")
+    else:
+        own = [vn for (bi, st, f, vn) in flow.aggregate_inits(sb, "error::SnmpError")]
+        rep.check(rule, "ScopedPdu::try_from|no own refusal", not own, "errors come from the element parsers only",
+                  "ScopedPdu::try_from refuses input on its own (%s): octets after the scoped PDU are padding of the block cipher and may have any value" % own,
+                  sb.loc(), obligation=True)
+
+
+def pad_constants(ctx, rep, rule):
+    """The padding pushed in front of the scoped PDU and the amount subtracted from the buffer length afterwards are the same
+    number (the cipher's block size) in both ciphers."""
+    facts = ctx.facts
+    for adt, cname in ((DES, "privacy::des"), (AES, "privacy::aes128")):
+        body = facts.body("<%s as privacy::SnmpPriv>::encrypt" % adt)
+        if body is None:
+            rep.missing(rule, adt + "::encrypt")
+            continue
+        prov = flow.Prov(body)
+        try:
+            pad = facts.const_value(cname + "::PADDING")
+            blk = facts.const_value(cname + "::BLOCK_SIZE")
+        except Exception:
+            rep.inconclusive(rule, adt + "::encrypt|padding constants", "PADDING / BLOCK_SIZE not found", body.loc())
+            continue
+        subs = []
+        for b in body.live_blocks():
+            for st in b.stmts:
+                if st["k"] == "assign" and st["rv"]["k"] == "bin" and st["rv"]["op"].startswith("Sub"):
+                    t = prov.rvalue(st["rv"])
+                    if t[0] == "bin" and t[3][0] == "const" and isinstance(t[3][1], int) and flow.mentions(t[2], lambda s_: s_[0] == "call" and (s_[1] or "").endswith("Buffer::len")):
+                        subs.append(t[3][1])
+        npad = len(pad) if isinstance(pad, (bytes, bytearray)) else None
+        key = adt.split("::")[-1] + "::encrypt|padding"
+        rep.check(rule, key, npad == blk and bool(subs) and all(x == npad for x in subs), "push(PADDING) and buf.len() - %s agree" % blk,
+                  "%d padding octets are pushed but %s is subtracted from the buffer length (block size %s): the scoped PDU length is off and its last "
+                  "octet(s) are cut or padding is sent as data" % (npad or -1, subs, blk), body.loc(), obligation=True)
